@@ -1,6 +1,8 @@
 import Tumfl.Props.C03
 import Tumfl.Props.C11
+import Tumfl.Props.Lex
 #print axioms Tumfl.Props.C03_ladder_is_climb
 #print axioms Tumfl.Props.C03_parseExp
 #print axioms Tumfl.Inst.model_ladder_ok
 #print axioms Tumfl.Theory.climb_complete_top
+#print axioms Tumfl.Props.Lex_complete
